@@ -109,10 +109,28 @@ def hist_shrinks(c):
             yield mk(c['op'], '|'.join(rest), tag=c.get('tag', ''))
 
 
+class CorrespondenceLost(RuntimeError):
+    """the harness can no longer observe what a theorem's function is about: not an outcome of the library but a
+    broken tie — propagates out of impl(), the framework reports `correspondence:…:harness-run`"""
+
+
+def guarded_keep(fn, keep):
+    from ..framework import exc_family
+    try:
+        return fn()
+    except keep:
+        raise
+    except RecursionError:
+        return 'err:py:RecursionError'
+    except Exception as e:  # noqa: BLE001
+        return 'err:' + exc_family(e)
+
+
 class EcdsaSignSpy:
     """stands in for the ctypes library object of bitcoin.core.key while one signature is made; records the DER
     bytes ECDSA_sign wrote (before the library's low-S normalisation).  If the library stops calling
-    `_ssl.ECDSA_sign`, nothing is recorded and the signFinish comparison is skipped (no alarm)."""
+    `_ssl.ECDSA_sign` (e.g. the libsecp256k1 signing branch is enabled), nothing is recorded: the tie of
+    `signFinish` is then broken and impl() raises CorrespondenceLost."""
     def __init__(self, lib):
         self._lib = lib
         self.raw = None
@@ -138,7 +156,8 @@ class C13(Prop):
         'p_eq', 'p_eq_sec2', 'n_eq', 'n_lt_p', 'p_mod_4', 'G_on_curve', 'G_onCurve', 'n_mul_G', 'n_pred_mul_G',
         'two_mul_G', 'der_roundtrip', 'der_strict', 'derEncode_injective', 'compareBigEndian_sign',
         'maxModHalfOrder_eq', 'isLowDer_iff_encode', 'isLowDer_iff', 'n_odd', 'lowS_spec', 'signatureToLowS_spec',
-        'signatureToLowS_reference', 'signatureToLowS_unparsed', 'sign_spec', 'sign_hash_length',
+        'signatureToLowS_reference', 'signatureToLowS_unparsed', 'signatureToLowS_above_order',
+        'isCompressed_of_affine', 'o15_infinity_key', 'sign_spec', 'sign_hash_length',
         'wifPayload_eq_spec', 'wif_roundtrip', 'wif_roundtrip_chains', 'wif_wrong_version', 'pub_eq_reference',
         'decode_encode_point', 'decode_some_iff_uncompressed', 'decode_compressed_sound', 'encode_decode_compressed',
         'decode_bad_tag', 'verify_sign', 'verify_lowS_twin')] + [
@@ -160,6 +179,13 @@ class C13(Prop):
                    'the verification equation (verify_sign is abstract, not instantiated on the Jacobian formulas); '
                    'is_fullyvalid = reference decode (the reference decode itself has a Spec: decode_some_iff_uncompressed, '
                    'decode_compressed_sound; completeness for 02/03 UNPROVED); verify_lowS_twin_concrete UNPROVED',
+                   'O15 (observation outside the property domain [1, n-1] / 33-or-65 bytes; model mirrors it, T2 strict, '
+                   'theorem o15_infinity_key): secrets 0 and n are accepted silently, pub = 00 (infinity), reported fully '
+                   'valid, is_compressed false whatever was asked; CPubKey(b"\\x00").is_fullyvalid is True',
+                   'the libsecp256k1 signing branch of CECKey.sign (use_libsecp256k1_for_signing) is not modelled: the '
+                   'library is not installed here; if signing stops going through _ssl.ECDSA_sign the check reports a '
+                   'broken tie (CorrespondenceLost), it does not skip',
+                   'signature_to_low_s for s > n raises ValueError (mirrored: signatureToLowS_above_order), off the sign domain',
                    'theorems about CECKey.sign / signature_to_low_s hold under the OpenSSL contract: ECDSA_sign returns the '
                    'strict DER of some (r, s), r < 2^256, 0 < s < n; d2i/i2d are the strict DER codec']
     rule = ('secrets {1,2,3,n-1,n-2,n-3,n/2,..., leading-zero, random} x both compressions x 4 chains (key + WIF); '
@@ -202,6 +228,16 @@ class C13(Prop):
             for comp in (1, 0):
                 for chain in (CHAINS if (j < 40 or big) else (CHAINS[j % 4],)):
                     yield mk('c13.key', chain, sb, comp, tag='key')
+
+        # (a') O15: secrets 0, n, n+1, 2^256-1 are accepted silently (0 and n give the infinity key `00`, "fully
+        #      valid", never "compressed"); outside the property's [1, n-1], compared strictly to TIE the model
+        if shard == 0:
+            for sv in (0, N, N + 1, N + 2, 2 ** 256 - 1, 2 * N if 2 * N < 2 ** 256 else N):
+                for comp in (1, 0):
+                    for chain in CHAINS:
+                        yield mk('c13.key', chain, sv.to_bytes(32, 'big').hex(), comp, tag='key-out-of-range')
+            for pk in ('00', '0000', '01', '02', '04', '-'):
+                yield mk('c13.fullyvalid', pk, tag='pubkey-infinity')
 
         # (b) WIF parsing of foreign payloads: versions, lengths, compression markers
         vers = sorted({128, 239, 0, 5, 111, 196, 127, 129, 238, 240, 255} | {v for v in self.pool if 0 <= v <= 255})
@@ -299,6 +335,10 @@ class C13(Prop):
                 yield mk('c13.isLowDer', sg.hex(), tag='lowder')
                 if 1 <= sv < N and 1 <= rv < N:
                     yield mk('c13.toLowS', sg.hex(), tag='tolows')
+        if shard == 0:      # N5: s >= n (off the sign domain): n gives (r, 0); above n the library raises ValueError
+            for sv in (N, N + 1, N + 5, 2 ** 256 - 1, N - 1, HALF + 1):
+                for rv in (1, 0x1234, N - 1):
+                    yield mk('c13.toLowS', der(rv, sv).hex(), tag='tolows-above-order')
         base = der(crng.randrange(1, N), HALF)
         lr = base[3]
         muts = [base[:k] for k in range(len(base))]                       # every truncation
@@ -364,13 +404,12 @@ class C13(Prop):
                     k = self._secret(a[1], a[2], a[0])
                     text = str(k)
                     k2 = W.CBitcoinSecret(text)
-                    out = 'pub=%s ver=%d payload=%s rt=%s,%d,%s' % (
-                        bytes(k.pub).hex(), k.nVersion, bytes(k).hex(), bytes(k2)[0:32].hex(),
+                    out = 'pub=%s ver=%d payload=%s comp=%d valid=%d rt=%s,%d,%s' % (
+                        bytes(k.pub).hex(), k.nVersion, bytes(k).hex(), 1 if k.is_compressed else 0,
+                        1 if k.pub.is_fullyvalid else 0, bytes(k2)[0:32].hex(),
                         1 if k2.is_compressed else 0, bytes(k2.pub).hex())
                     if text != b58check(k.nVersion, bytes(k)) or str(k2) != text or k2.nVersion != k.nVersion:
                         out += ' wif-text-mismatch'
-                    if k.is_compressed != bool(int(a[2])) or not k.pub.is_fullyvalid:
-                        out += ' flag-mismatch'
                     return out
                 return guarded(f)
             if op == 'c13.wifparse':
@@ -391,11 +430,14 @@ class C13(Prop):
                         sig = k.sign(h)
                     finally:
                         K._ssl = spy._lib
-                    c['aux'] = [bytes(sig).hex(), spy.raw.hex() if spy.raw else '-']
+                    if not spy.raw:
+                        raise CorrespondenceLost('CECKey.sign did not call _ssl.ECDSA_sign: the output of ECDSA_sign '
+                                                 'cannot be observed, so Model.Keys.signFinish is no longer tied')
+                    c['aux'] = [bytes(sig).hex(), spy.raw.hex()]
                     if k.pub.verify(h, sig) is not True:
                         return 'bad:own-signature-not-verified'
                     return 'ok'
-                return guarded(f)
+                return guarded_keep(f, CorrespondenceLost)
             if op == 'c13.signlen':
                 return guarded(lambda: 'ok:' + bytes(self._secret(a[0], a[1]).sign(bytes.fromhex(a[2]))).hex())
             if op == 'c13.matrix':
@@ -414,7 +456,7 @@ class C13(Prop):
                 return guarded(lambda: '1' if K.CPubKey(bytes.fromhex(a[0])).verify(bytes.fromhex(a[1]),
                                                                                      bytes.fromhex(a[2])) else '0')
             if op == 'c13.fullyvalid':
-                return guarded(lambda: '1' if K.CPubKey(bytes.fromhex(a[0])).is_fullyvalid else '0')
+                return guarded(lambda: '1' if K.CPubKey(b'' if a[0] == '-' else bytes.fromhex(a[0])).is_fullyvalid else '0')
             if op == 'c13.isLowDer':
                 return guarded(lambda: '1' if SC.IsLowDERSignature(bytes.fromhex(a[0])) else '0')
             if op == 'c13.toLowS':
